@@ -61,6 +61,8 @@ def cases(tier, rnd):
         if kind == 9: valid = valid[:78] + b"\x00\x00" + valid[80:]
         for n in range(len(valid) + 1): cs.append(with_replies(rnd, kind, [login, valid[:n]]))
         for n in range(len(login) + 1): cs.append(with_replies(rnd, kind, [login[:n], valid]))
+        for n in (1023, 1024, 1024):         # a reply that fills the read buffer exactly (valid and followed by padding; or random)
+            cs.append(with_replies(rnd, kind, [login, (valid + world.rand_bytes(rnd, n))[:n]])); cs.append(with_replies(rnd, kind, [login, world.rand_bytes(rnd, n)]))
         for _ in range(100 if tier == "quick" else 5000):
             cs.append(with_replies(rnd, kind, [login, world.rand_bytes(rnd, rnd.choice([rnd.randrange(1, 200), rnd.randrange(1, 1025)]))]))
         for _ in range(100 if tier == "quick" else 3000):
@@ -167,6 +169,9 @@ def run(tier, rnd, out):
     run_stream(out, "faulty-replies", cases(tier, rnd))
     cs = oc.mixed_cases(rnd, 15 if tier == "quick" else 400, reply_mode="faulty", accepted_args=True)
     run_stream(out, "random-faults", cs)
+    import copy
+    slow = world.with_delays(rnd, [copy.deepcopy(c) for c in rnd.sample(cs, min(len(cs), 60 if tier == "quick" else 1500))])
+    run_stream(out, "random-faults-from-a-slow-device", slow)
     run_sequences(out, rnd, 120 if tier == "quick" else 2000)
     run_context_form(out, rnd, 4 if tier == "quick" else 60)
 
